@@ -42,3 +42,14 @@ def pick(seq, i):
         if i == j:
             return seq[j]
     raise IndexError(i)
+
+
+def untraced():
+    """context manager: CrossHair's tracer off while code runs that touches only values that are CONCRETE on this path (set-up
+    of interpreters from literal text, copying references).  Same code, same result, native speed; nothing symbolic may be
+    inspected inside.  In real mode it does nothing."""
+    if MODE == "sym":
+        from crosshair.core import NoTracing
+        return NoTracing()
+    import contextlib
+    return contextlib.nullcontext()
